@@ -1251,6 +1251,9 @@ class Executor:
                 return
             raise Unsupported(f"method {d.name} on {d.recv.ty!r} line {getattr(node, 'lineno', '?')}")
         self.used_trusted.add(f"{k}.{d.name}")
+        mx = pybuiltins.METHOD_MAX_ARGS.get((k, d.name))
+        if mx is not None and (len(args) > mx or (kwargs and d.name not in ("encode", "decode"))):
+            raise Unsupported(f"{k}.{d.name} called with arguments its model does not cover (line {getattr(node, 'lineno', '?')})")
         yield from h(self, d, args, kwargs, st, sink, node)
 
     def write_back(self, st: State, loc, val: SV):
